@@ -698,6 +698,27 @@ pub fn gen(ctx: &Ctx) -> Vec<Value> {
     // outer value is not a sequence
     out.push(json!({"id": format!("trace-{:06}", id), "seed": 0, "kind": "malformed", "opts": default_opts(), "items": false,
                     "samples": [], "perms": [], "top": sval::int("i32", 1)}));
+    id += 1;
+    // (appended last, so that the ids and seeds of the cases above do not move) near misses of the temporal matchers under
+    // guess_dates: a complete date / time / datetime followed or preceded by something else — other designators, ASCII
+    // garbage, and NON-ASCII characters of 2, 3 and 4 bytes (seeded c16i: the zone-designator matcher cut the rest of the
+    // string at a byte offset inside a multi-byte character and panicked)
+    let tails = ["é", "–2015-09-18T23:59:00", "\u{2028}", "😀", " ", "x", "Z", "z", "+00:00", "+0000", "+00:0é", "Zé", "+é", ".5é", ".123456789012é"];
+    for base in [NAIVE_DT, UTC_DT, DATE, TIME] {
+        for t in tails {
+            for (k, s) in [format!("{base}{t}"), format!("{t}{base}"), format!("{}{t}{}", &base[..4], &base[4..])].into_iter().enumerate() {
+                for guess in [true, false] {
+                    if !guess && k != 0 {
+                        continue;
+                    }
+                    let sub = rng.fork().0;
+                    let mut o = default_opts();
+                    o["guess_dates"] = json!(guess);
+                    out.push(case(&mut id, sub, "nearmiss", o, true, vec![sval::string(&s), sval::string(base)], vec![vec![1, 0]]));
+                }
+            }
+        }
+    }
     out
 }
 
